@@ -1,7 +1,8 @@
 """C07 - a linear model's adjoint is the transpose of its forward map.
 
-Spec: specs/ModelGeom.tla (parts "C07", "TP", "SEQ", "SEQ2") and specs/ModelGeomEdit.tla (part "SEQE": in-place edits of the matrix,
-replayed by cuqiverif/c07_edit.py).  TLC checks Adjoint / Columns / Transpose on the intended design for
+Spec: specs/ModelGeom.tla (parts "C07", "TP", "SEQ", "SEQ2"), specs/ModelGeomEdit.tla (part "SEQE": in-place edits of the matrix,
+replayed by cuqiverif/c07_edit.py) and specs/ModelGeomFun.tla (parts "FUN": user functions returning views of their input, "LAY": data
+layout of matrix / vectors; replayed by cuqiverif/c07_fun.py).  TLC checks Adjoint / Columns / Transpose on the intended design for
 every (model kind, domain geometry, range geometry) of the bounded instance, the named deviations must violate them, and
 the exact expected numbers are replayed into real cuqi.model.LinearModel objects and the shipped linear test problems.
 """
@@ -29,10 +30,22 @@ META = {
              "free booleans): the invariants say that forward, adjoint, get_matrix() and the transposed model built now show THE SAME content "
              "of the matrix at the same time; deviations AdjointKeepsTransposedCopy, AssembledMatrixOutlivesEdit, DeepCopyKeepsCallablesOfOriginal "
              "must violate.  Replay: which content an object shows is read off its forward map (observation), every other read-out of "
-             "every live object must then be the exact value of TLC's table for that same content, after every action."),
+             "every live object must then be the exact value of TLC's table for that same content, after every action.  "
+             "Part FUN (ModelGeomFun.tla, EXTENDS ModelGeom): function-backed models whose user functions are selections / permutations "
+             "(x, x[::-1], x[::2], x[1::2], x[2:], X.T) realised as FunKind fresh / view of the argument / the argument itself / np.asarray / "
+             "fresh-but-keeps-references, over an abstract memory (buffers + handles, free booleans for 'the view really aliases'): the assembled "
+             "matrix of the model and of its transposed model has the columns forward(e_j) computed with a unit vector that is current when the "
+             "column is STORED (FunColumns) and every array handed to the user keeps its value whatever the model does afterwards "
+             "(FunResultsStable); deviations ColumnsStackedAtTheEnd / ScratchInputBuffer must violate.  Replay: real LinearModel(function pair) "
+             "per sequence of forward / adjoint / get_matrix / T.get_matrix, every returned and every earlier returned array and the user's inputs "
+             "compared after every operation.  Part LAY: the matrix of a matrix-backed model as int / float32 / column-major / strided / read-only "
+             "array (sparse: int / float32 data) and the vectors as int / float32 / strided / read-only, whole forward / adjoint / get_matrix / T "
+             "comparison against the numbers of the same configuration."),
     "note": ("Bounded sizes (function dimensions 4 and 6, images 2x2/2x3, test problems dim 4-8). KLExpansion is realised numerically "
              "(maps read off the original geometry object). Refusals (fun2par not implemented) are observations. Legacy "
-             "Deconvolution1D has no documented operator: only the identities are checked."),
+             "Deconvolution1D has no documented operator: only the identities are checked. Complex-valued matrices are out of scope (the library "
+             "documents real arrays; transpose vs conjugate transpose is undefined there). User functions that modify their argument or hand out one "
+             "output buffer again and again are undefined and not modelled; python lists are not documented inputs."),
     "technique": "TLA+ spec (ModelGeom) model-checked with TLC; TLC-emitted cases replayed into cuqi.model.LinearModel / cuqi.testproblem",
 }
 
@@ -1079,7 +1092,9 @@ def run(ctx):
                        | {gkey(c["rg"]) for c in lin if not c["coded_is_transpose"] and gkey(c["dg"]) == "cont1d"}))
     # (the TLC runs of part SEQE go on in the background while the parts before it are replayed)
     from cuqiverif.c07_edit import run_edit, start_tlc, wait_tlc
+    from cuqiverif import c07_fun
     started = start_tlc(ctx)
+    started_fun = c07_fun.start_tlc(ctx)         # part FUN / LAY (ModelGeomFun.tla), also in the background
     try:
         for c in lin:
             check_lin_case(ctx, c)
@@ -1087,8 +1102,14 @@ def run(ctx):
         nseq += run_seq2(ctx, lin)
     except BaseException:
         wait_tlc(started)
+        c07_fun.wait_tlc(started_fun)
         raise
-    nseq += run_edit(ctx, lin, started)
+    try:
+        nseq += run_edit(ctx, lin, started)
+    except BaseException:
+        c07_fun.wait_tlc(started_fun)
+        raise
+    nseq += c07_fun.run_fun(ctx, started_fun, lin)
     for c in conv:
         (check_conv1 if c["kind"] == "conv1" else check_conv2)(ctx, c)
     named = named_problems(tier)
@@ -1131,6 +1152,9 @@ def replay(ctx, case):
     if kind == "seqe":
         from cuqiverif.c07_edit import check_behaviour
         return check_behaviour(ctx, case)
+    if kind in ("fun", "lay"):
+        from cuqiverif import c07_fun
+        return c07_fun.replay(ctx, case)
     if kind == "conv1":
         return check_conv1(ctx, case)
     if kind == "conv2":
